@@ -117,7 +117,7 @@ pub fn run(ctx: &Ctx) {
     ctx.par_proptest(
         "random-trees",
         n,
-        || gen::arb_typed(scfg.clone(), ValCfg { max_len: 130, max_seq: 5 }),
+        || gen::arb_typed(scfg.clone(), ValCfg { max_len: 1000, max_seq: 5 }),
         |(s, v), l| {
             let (js, jv) = prepare(s, v, false, l);
             check(&js, &jv, l)
